@@ -307,9 +307,29 @@ where $($args: Getable<'vm, 'vm> + 'vm,)*
             lock = stack.into_lock();
 
             drop(context);
-            let r = (*self)($($args),*);
+            // A panic must not unwind out of the `extern "C"` wrapper generated by `primitive!`
+            // (that aborts the process), report it to the caller as an error instead
+            let r = std::panic::catch_unwind(std::panic::AssertUnwindSafe(|| {
+                (*self)($($args),*)
+            }));
             context = vm.current_context();
-            r
+            match r {
+                Ok(r) => r,
+                Err(payload) => {
+                    context.stack().release_lock(lock);
+                    let msg = if let Some(s) = payload.downcast_ref::<&str>() {
+                        *s
+                    } else if let Some(s) = payload.downcast_ref::<String>() {
+                        &s[..]
+                    } else {
+                        "unknown panic"
+                    };
+                    format!("Extern function panicked: {}", msg)
+                        .vm_push(&mut context)
+                        .unwrap();
+                    return Status::Error;
+                }
+            }
         };
 
         r.async_status_push(&mut context, lock, frame_index)
